@@ -14,13 +14,10 @@ from ir import apply_field_renames, norm_ty
 def resolve(facts):
     if getattr(facts, '_aliases_done', False): return facts.alias_renames
     facts._aliases_done = True; facts.alias_renames = {}
-    try:
-        import layouts as SPEC
-        from layout_cmp import build, tagged_positions
-        from emit import emission
-        from model import with_offsets
-    except ImportError:
-        return {}
+    from model import with_offsets          # (puts spec/ on the module path)
+    import layouts as SPEC
+    from layout_cmp import build, tagged_positions
+    from emit import emission
     ren = {}
     for (ty, ctor), sp in SPEC.STRUCTS.items():
         adt = facts.adt(ty)
